@@ -52,7 +52,7 @@ func ParsePath(path string) (PropertyPath, error) {
 			},
 		}, nil
 	}
-	parsed, err := Parse("", []byte(path))
+	parsed, err := Parse("", []byte(path), Entrypoint("Path"))
 	if err != nil {
 		return nil, err
 	}
